@@ -118,10 +118,19 @@ func ResultCell(fn *ssa.Function, k int) *ssa.Alloc {
 // IsLoadOfCell returns a predicate: v is a load of the given variable cell
 // (from the declaring function or a closure capturing it).
 func IsLoadOfCell(cell *ssa.Alloc) func(ssa.Value) bool {
-	return func(v ssa.Value) bool {
+	var is func(v ssa.Value, d int) bool
+	is = func(v ssa.Value, d int) bool {
+		if p, isP := v.(*ssa.Parameter); isP && d < 3 {
+			// handed on, by value, to a private helper at its only call site: what the helper sees is that load
+			if a := BoundArg(p); a != nil {
+				return is(a, d+1)
+			}
+			return false
+		}
 		u, ok := v.(*ssa.UnOp)
 		return ok && cell != nil && u.Op == token.MUL && cellOf(u.X) == cell
 	}
+	return func(v ssa.Value) bool { return is(v, 0) }
 }
 
 // StoresToCellIn lists the stores into cell located in fn.
